@@ -70,6 +70,9 @@ func StP(priv []bool, ts ...*Type) *Type {
 		if i < len(priv) && priv[i] {
 			t.Fields[i].Priv = true
 			t.Fields[i].Name = fmt.Sprintf("f%d", i)
+			if i%4 == 3 { // unexported is "does not start with an upper-case letter", not "starts with a lower-case one"
+				t.Fields[i].Name = fmt.Sprintf("_f%d", i)
+			}
 		}
 	}
 	return t
